@@ -382,11 +382,43 @@ class _resolve_called_lambdas(ast.NodeTransformer):
             return self.generic_visit(node)
         return node
 
+    def _visit_hiding(self, names: List[str], nodes: List[ast.AST]) -> List[Any]:
+        "Visit `nodes` with `names` bound locally: they hide arguments of the same name."
+        self._arg_map_list.append({n: None for n in names})
+        try:
+            return [self.visit(n) for n in nodes]
+        finally:
+            self._arg_map_list.pop()
+
+    def visit_Lambda(self, node: ast.Lambda) -> Any:
+        "The lambda's own arguments hide the arguments we are substituting"
+        node.body = self._visit_hiding([a.arg for a in node.args.args], [node.body])[0]
+        return node
+
+    def _visit_comprehension(self, node: Any) -> Any:
+        "The iterable is outside the scope of the loop variable, everything else is inside"
+        if len(node.generators) != 1:
+            return self.generic_visit(node)
+        gen = node.generators[0]
+        gen.iter = self.visit(gen.iter)
+        names = [n.id for n in ast.walk(gen.target) if isinstance(n, ast.Name)]
+        inside = self._visit_hiding(names, [node.elt] + gen.ifs)
+        node.elt = inside[0]
+        gen.ifs = inside[1:]
+        return node
+
+    def visit_ListComp(self, node: ast.ListComp) -> Any:
+        return self._visit_comprehension(node)
+
+    def visit_GeneratorExp(self, node: ast.GeneratorExp) -> Any:
+        return self._visit_comprehension(node)
+
     def visit_Name(self, node: ast.Name) -> Any:
         "Look through the arg map to see if it is a argument"
         for arg_map in reversed(self._arg_map_list):
             if node.id in arg_map:
-                return arg_map[node.id]
+                replacement = arg_map[node.id]
+                return node if replacement is None else replacement
         return node
 
 
